@@ -71,6 +71,16 @@ static void *sev_alloc(size_t n)
 }
 void *operator new(size_t n) { return sev_alloc(n); }
 void *operator new[](size_t n) { return sev_alloc(n); }
+void *operator new(size_t n, const std::nothrow_t &) noexcept
+{
+    return n > sev_new_cap ? nullptr : malloc(n ? n : 1);
+}
+void *operator new[](size_t n, const std::nothrow_t &) noexcept
+{
+    return n > sev_new_cap ? nullptr : malloc(n ? n : 1);
+}
+void operator delete(void *p, const std::nothrow_t &) noexcept { free(p); }
+void operator delete[](void *p, const std::nothrow_t &) noexcept { free(p); }
 void operator delete(void *p) noexcept { free(p); }
 void operator delete[](void *p) noexcept { free(p); }
 void operator delete(void *p, size_t) noexcept { free(p); }
